@@ -163,7 +163,9 @@ def build_case(seed):
 
 
 def run_case(case, trace_id):
-    cfg = {"g90e": False, "enter": [], "exit": [], "xg": {}, "at": None}
+    # (every second case runs with the plugin's logger enabled for DEBUG)
+    cfg = {"g90e": False, "enter": [], "exit": [], "xg": {}, "at": None,
+           "debug": bool(case["seed"] % 2)}
     traces = []
     for key in ("base", "var"):
         prog = gen_motion.Program(cfg, case["seed"])
